@@ -413,7 +413,29 @@ where
         res
     }
     fn run_bytes(&self, data: &[u8], tier: Tier, prop: &str) -> Option<Failure> {
-        let rng = TestRng::from_seed(RngAlgorithm::PassThrough, data);
+        // the fuzzer's bytes come first; a pseudo-random tail derived from them follows, because rand 0.9's
+        // uniform sampling rejects forever on the all-zero stream proptest's pass-through RNG yields once exhausted
+        let mut buf = data.to_vec();
+        let mut st = hash_str(&format!("{:?}", &data[..data.len().min(64)])) ^ data.len() as u64;
+        let tail: usize = std::env::var("VERIF_FUZZ_TAIL").ok().and_then(|s| s.parse().ok()).unwrap_or(48 << 10);
+        while buf.len() < data.len() + tail {
+            buf.extend_from_slice(&splitmix64(&mut st).to_le_bytes());
+        }
+        let rng = TestRng::from_seed(RngAlgorithm::PassThrough, &buf);
+        if std::env::var("VERIF_DEBUG_RNG").is_ok() {
+            use rand_core::RngCore;
+            let mut c = rng.clone();
+            let mut n = 0u64;
+            let mut zeros = 0u64;
+            for _ in 0..10000 {
+                let v = c.next_u64();
+                n += 1;
+                if v == 0 {
+                    zeros += 1;
+                }
+            }
+            eprintln!("debug rng: buf len {}, drew {n} u64, {zeros} zero", buf.len());
+        }
         let mut runner = TestRunner::new_with_rng(Config { failure_persistence: None, ..Config::default() }, rng);
         let strat = (self.strategy)(tier);
         let tree = strat.new_tree(&mut runner).ok()?;
